@@ -39,6 +39,76 @@ func main() {
 		vdir := fs.String("verif", "/verif", "verif dir")
 		fs.Parse(os.Args[2:])
 		os.Exit(gvc.RunProperty(*repo, *vdir, *prop, *tier, *seed))
+	case "sweep":
+		fs := flag.NewFlagSet("sweep", flag.ExitOnError)
+		repo := fs.String("repo", "/repo", "repository")
+		nocontracts := fs.Bool("inline", false, "ignore contracts (inline everything)")
+		verbose := fs.Bool("v", false, "verbose")
+		fs.Parse(os.Args[2:])
+		p, err := gvc.Load(*repo, true)
+		if err != nil {
+			fmt.Println(err)
+			os.Exit(2)
+		}
+		cfg := gvc.DefaultConfig()
+		var specs []gvc.UnitSpec
+		for _, fn := range p.AllRepoFuncs() {
+			if !gvc.Exported(fn) {
+				continue
+			}
+			if len(fs.Args()) > 0 {
+				ok := false
+				for _, a := range fs.Args() {
+					if fn.Pkg.Pkg.Name() == a {
+						ok = true
+					}
+				}
+				if !ok {
+					continue
+				}
+			}
+			c := cfg
+			if *nocontracts {
+				c.NoContracts = map[string]bool{"*": true}
+			}
+			specs = append(specs, gvc.UnitSpec{Fn: fn, Opt: gvc.Options{UseRequires: true}, Cfg: &c, Kind: "sweep"})
+		}
+		res := gvc.RunUnits(p, specs, cfg)
+		tot, bad := 0, 0
+		for _, r := range res {
+			nb := 0
+			for _, o := range r.Obls {
+				tot++
+				if o.Status != "proved" {
+					nb++
+					bad++
+				}
+			}
+			if nb > 0 || len(r.Limits) > 0 || *verbose {
+				fmt.Println(r.Summary())
+				for _, o := range r.Obls {
+					if o.Status != "proved" {
+						fmt.Printf("   %-8s %s\n", o.Status, o.Name)
+					}
+				}
+				for _, l := range r.Limits {
+					fmt.Println("   LIMIT:", l)
+				}
+			}
+		}
+		fmt.Printf("units=%d obligations=%d notproved=%d\n", len(res), tot, bad)
+	case "loops":
+		p, err := gvc.Load("/repo", false)
+		if err != nil {
+			fmt.Println(err)
+			os.Exit(2)
+		}
+		for _, fn := range p.AllRepoFuncs() {
+			n := gvc.CountLoops(fn)
+			if n > 0 {
+				fmt.Printf("%d %s\n", n, gvc.FuncName(fn))
+			}
+		}
 	case "verify":
 		fs := flag.NewFlagSet("verify", flag.ExitOnError)
 		verbose := fs.Bool("v", false, "verbose")
